@@ -55,6 +55,11 @@ def SCRIPTED(mode):
 # against the Lean free-list / probing models (driver mode `alloc`) and harness-side oracles (conservation, placement, encoding)
 ALLOC_FL = {"cmd": "alloc-freelist", "mode": "alloc", "cases": {"quick": 120, "thorough": 3000}, "shards": {"quick": 6, "thorough": 16}}
 ALLOC_PROBE = {"cmd": "alloc-probe", "mode": "alloc", "cases": {"quick": 600, "thorough": 16000}, "shards": {"quick": 4, "thorough": 16}}
+ALLOC_LOOKUP = {"cmd": "alloc-lookup", "mode": "alloc", "cases": {"quick": 40, "thorough": 1200}, "shards": {"quick": 4, "thorough": 16}}
+ALLOC_LOOKUP_RULE = (" alloc-lookup: real stores with 64..300 buckets are filled to 35..65 % by commits of clustered keys (every cluster stores 2..3 merkle pages) and churned (tombstones); "
+                     "after every commit the ht file is read back and for the label of EVERY full bucket the real Store::load_page (the lookup Nomt::open uses for the root page: probe + try_complete + retry) "
+                     "must return exactly that bucket and its bytes, absent page ids must not be found, no label may occur twice; every lookup is a `pslookup` line for the Lean probing model "
+                     "(lookupLoop); the evidence counts the lookups whose first possible hit was another page with the same 7-bit tag (lookup_retry_needed).")
 ALLOC_RULE = (" Allocator runs: alloc-freelist builds well-shaped free lists with the real page capacity 1022 (0..3 full pages, head of 0 / 1 / 2 / 1021 / 1022 / random items, "
               "fragmented shapes, 0..2500 live pages) and drives 6 consecutive syncs each through the REAL FreeList (allocate(i) for every allocation index, then finish(freed)) with allocation / "
               "freed counts aimed at the page boundaries; every sync is one protocol line and must equal the Lean model (handed-out pages, new frontier, pages written in order, new portions) and "
@@ -153,9 +158,9 @@ PROPS = {
         "trusted_base": API_TB, "assumptions": API_ASSUME,
     },
     "C05": {
-        "lines": ['prove', 'pshash', 'psnext', 'psalloc'],
+        "lines": ['prove', 'pshash', 'psnext', 'psalloc', 'pslookup'],
         "tags": ['C05'],
-        "runs": DB_SCRIPT(["script-elision-threshold"]) + [DB("kv", 120, 1200, nops=14), DB("overlay", 80, 800, nops=14), DB("reopen", 60, 600, nops=14), DB("kv", 4, 40, nops=14, scale=100, shards_q=4), dict(ALLOC_PROBE)],
+        "runs": DB_SCRIPT(["script-elision-threshold"]) + [DB("kv", 120, 1200, nops=14), DB("overlay", 80, 800, nops=14), DB("reopen", 60, 600, nops=14), DB("kv", 4, 40, nops=14, scale=100, shards_q=4), dict(ALLOC_PROBE), dict(ALLOC_LOOKUP)],
         "rule": DB_RULE + " C05: Session::prove for present keys, absent keys diverging from a present key at interesting depths (page boundaries 6k-1..6k+1, just below the terminal, 246..255) and random keys, on plain / overlay sessions, cold caches after reopen; the proof object must equal the Lean proveSpec (terminal + every sibling) and verify + confirm the session's view with the real verifier.",
         "trusted_base": API_TB, "assumptions": API_ASSUME,
     },
@@ -204,8 +209,8 @@ PROPS = {
     "C10": {
         "tags": ['C10', 'C01', 'C02', 'C05', 'C09'],
         "runs": DB_SCN(["reopen-resurrects-pruned-delta", "rollback-all-then-reopen", "rollback-reopen-rollback-reopen"]) + [DB("reopen", 200, 2000, nops=18), DB("reopen", 6, 60, nops=16, big=True, scale=50, shards_q=6), DB("rollback", 60, 600, nops=16), DB("reopen", 80, 800, nops=18, segsize=8192),
-                 CRASH("crash", "reopen", 2, 20, steps=1, shards_q=2), CHURN],
-        "rule": DB_RULE + " C10 focus: the handle is dropped and reopened (with an independently drawn runtime configuration: workers, cache sizes, io workers, warm-up, prepopulation, upper levels) at random positions, up to half of all steps; after every reopen root, sync_seqn, sampled values, hash_table_utilization().occupied (must equal the pre-close value) and all later commits / rollbacks are compared with a model that ignores close/open.",
+                 CRASH("crash", "reopen", 2, 20, steps=1, shards_q=2), CHURN, dict(ALLOC_LOOKUP)],
+        "rule": DB_RULE + ALLOC_LOOKUP_RULE + " C10 focus: the handle is dropped and reopened (with an independently drawn runtime configuration: workers, cache sizes, io workers, warm-up, prepopulation, upper levels) at random positions, up to half of all steps; after every reopen root, sync_seqn, sampled values, hash_table_utilization().occupied (must equal the pre-close value) and all later commits / rollbacks are compared with a model that ignores close/open.",
         "trusted_base": API_TB, "assumptions": API_ASSUME + ["open retried for up to 5 s when the old handle's directory lock is still held by a background thread (that delay is C20's subject)"],
     },
     "C13": {
